@@ -16,8 +16,9 @@ using namespace vf;
 struct Case {
     std::vector<uint64_t> ext;     // array-backed: extents; identity: empty
     std::vector<uint64_t> xbits;   // coordinate components as bit patterns of R
-    json to_json() const { return json{{"extents", ext}, {"x_bits", xbits}}; }
-    static Case from_json(const json & j) { return Case{j.at("extents").get<std::vector<uint64_t>>(), j.at("x_bits").get<std::vector<uint64_t>>()}; }
+    std::vector<uint64_t> prev = {};   // if not empty: a coordinate looked up through the same view immediately before x
+    json to_json() const { return json{{"extents", ext}, {"x_bits", xbits}, {"prev_bits", prev}}; }
+    static Case from_json(const json & j) { return Case{j.at("extents").get<std::vector<uint64_t>>(), j.at("x_bits").get<std::vector<uint64_t>>(), j.value("prev_bits", std::vector<uint64_t>{})}; }
 };
 
 template <class R>
@@ -71,6 +72,28 @@ bool beyond_float(R x)
     return sizeof(R) == 8 && std::fabs(ld(x)) > 16777216.0L;
 }
 
+// a lookup is a function of the coordinate alone: half of the cases look another coordinate up through the same view
+// first - the centre of the cell x rounds to or of a neighbouring cell (so that x is about 1/2 away from it)
+template <class R>
+rc::Gen<Case> with_previous(rc::Gen<Case> g, bool array_backed)
+{
+    return rc::gen::mapcat(std::move(g), [array_backed](Case c) {
+        return rc::gen::map(rc::gen::tuple(rc::gen::arbitrary<bool>(), rc::gen::container<std::vector<int>>(c.xbits.size(), in_range<int>(-1, 1))), [c, array_backed](std::tuple<bool, std::vector<int>> t) {
+            Case r = c;
+            if (std::get<0>(t)) {
+                for (size_t k = 0; k < c.xbits.size(); ++k) {
+                    ld m = std::nearbyint(ld(from_bits<R>(c.xbits[k]))) + std::get<1>(t)[k];
+                    if (array_backed) {
+                        m = std::min(std::max(m, 0.0L), ld(c.ext[k]) - 1);
+                    }
+                    r.prev.push_back(to_bits<R>(R(m)));
+                }
+            }
+            return r;
+        });
+    });
+}
+
 // one coordinate component for an axis of the given extent: boundary-biased
 template <class R>
 rc::Gen<uint64_t> gen_component(int64_t lo_cell, int64_t hi_cell, bool open_domain)
@@ -122,9 +145,17 @@ struct OverIdentity {
                 label("double coordinate beyond single precision");
             }
         }
+        if (!c.prev.empty()) {
+            typename covfie::field<B>::coordinate_t px;
+            for (size_t k = 0; k < N; ++k) {
+                px[k] = from_bits<R>(c.prev[k]);
+            }
+            (void)v.at(px);
+            label("second lookup through the same view");
+        }
         auto p = v.at(x);
         Hasher h;
-        h.vec(c.xbits);
+        h.vec(c.xbits).vec(c.prev);
         if (nt) {
             label("component within 4 ulp of a half-integer");
         }
@@ -181,7 +212,7 @@ struct OverIdentity {
             }
         }
         note_exhaustive(name() + ": " + std::to_string(n) + " boundary coordinates (every multiple of 1/2 in [-40,40] +- 0..2 ulp)");
-        rc_campaign<Case>(name(), tier(4000, 400000), 100, gen(), run);
+        rc_campaign<Case>(name(), tier(4000, 400000), 100, with_previous<R>(gen(), false), run);
     }
     static void reg()
     {
@@ -228,9 +259,17 @@ struct OverArray {
                 return std::string("bad case: coordinate outside the documented domain");
             }
         }
+        if (!c.prev.empty()) {
+            typename covfie::field<B>::coordinate_t px;
+            for (size_t k = 0; k < N; ++k) {
+                px[k] = from_bits<R>(c.prev[k]);
+            }
+            (void)w.at(px);
+            label("second lookup through the same view");
+        }
         uint64_t rank = uint64_t(w.at(x)[0]) - 1;
         Hasher h;
-        h.vec(c.ext).vec(c.xbits);
+        h.vec(c.ext).vec(c.xbits).vec(c.prev);
         if (nt) {
             label("component within 4 ulp of a half-integer");
         }
@@ -284,12 +323,19 @@ struct OverArray {
                         }
                         run_explicit(name(), Case{{e}, {to_bits<R>(x)}}, run);
                         ++n;
+                        for (int d : {-1, 1}) {
+                            ld m = std::nearbyint(ld(x)) + d;
+                            if (m >= 0 && m <= ld(e) - 1) {
+                                run_explicit(name(), Case{{e}, {to_bits<R>(x)}, {to_bits<R>(R(m))}}, run);
+                                ++n;
+                            }
+                        }
                     }
                 }
             }
-            note_exhaustive(name() + ": " + std::to_string(n) + " coordinates: every extent 1..40, every multiple of 1/2 in the domain +- 0..2 ulp");
+            note_exhaustive(name() + ": " + std::to_string(n) + " coordinates: every extent 1..40, every multiple of 1/2 in the domain +- 0..2 ulp, each alone and after a lookup of either neighbouring cell through the same view");
         }
-        rc_campaign<Case>(name(), tier(1500, 100000), 100, gen(), run);
+        rc_campaign<Case>(name(), tier(1500, 100000), 100, with_previous<R>(gen(), true), run);
     }
     static void reg()
     {
